@@ -469,8 +469,66 @@ def r_accw(ctx, prog):
     ctx.floor(rule, "size accumulators in MsgPackDeserializer", n, 2)
 
 
+def r_poolcap(ctx, prog):
+    """capacity_ is the extent of the table pools_ points to (the inline
+    table or a heap block).  Every function of MemoryPoolList that re-seats
+    X.pools_ also writes X.capacity_ on every path from that write to its
+    exit (or before it, dominating it); otherwise the next addPool() indexes
+    the new table with the old table's capacity."""
+    rule = "R-POOLCAP"
+    n = 0
+
+    def member_writes(fn, name):
+        out = []
+        for i in fn.walk():
+            st = fn.s(i)
+            tgts = []
+            if st["k"] == "BinaryOperator" and st["op"] == "=":
+                tgts = [st["c"][0]]
+            elif st["k"] in P.CALL_KINDS and st.get("callee", {}).get("q", "").split("::")[-1] in ("swap_", "swap"):
+                tgts = list(st.get("args", []))
+            for t in tgts:
+                m = fn.s(fn.strip(t, casts=True))
+                if m["k"] == "MemberExpr" and m.get("m") == name:
+                    b = fn.s(fn.strip(m["c"][0], casts=True)) if m["c"] else {"k": "CXXThisExpr"}
+                    base = "this" if b["k"] == "CXXThisExpr" else fn.text(fn.strip(m["c"][0], casts=True))
+                    out.append((i, base))
+        return out
+
+    for fn in sorted(prog.fns.values(), key=lambda f: f.key):
+        if fn.cfg is None or not fn.file.startswith("Memory/MemoryPoolList"):
+            continue
+        pw = member_writes(fn, "pools_")
+        if not pw:
+            continue
+        cw = member_writes(fn, "capacity_")
+        for (w, base) in pw:
+            n += 1
+            ok = False
+            pb = fn.block_of(w)
+            for (c, cbase) in cw:
+                if cbase != base:
+                    continue
+                cb = fn.block_of(c)
+                if pb is None or cb is None:
+                    continue
+                if fn.stmt_dominates(c, w):
+                    ok = True
+                elif cb[0] == pb[0] and cb[1] > pb[1]:
+                    ok = True
+                elif fn.cfg["exit"] not in fn.reach_from([pb[0]], avoid=(cb[0],)):
+                    ok = True
+            ctx.ob(rule, "%s: %s.pools_ and %s.capacity_ change together" % (fn.short, base, base), ok, fn.loc(w),
+                   "" if ok else "%s.pools_ is re-seated here but %s.capacity_ keeps the extent of the previous table on some path to "
+                   "the exit: after the table shrinks back to the inline pools, addPool() writes pools_[count_] beyond it: %s" %
+                   (base, base, fn.text(w)))
+    ctx.floor(rule, "writes to pools_ in MemoryPoolList", n, 6)
+    ctx.doc(rule, r_poolcap.__doc__.strip().replace("\n", " "))
+
+
 def run(ctx, prog):
     r_accw(ctx, prog)
+    r_poolcap(ctx, prog)
     widths(ctx, prog)
     r_len(ctx, prog)
     r_grow(ctx, prog)
